@@ -547,6 +547,50 @@ def dilating_case(tid, n, perm, who, hold_version=True):
     return run, bool(drained), drained, ok
 
 
+def dilate_close_case(tid, peer, when, who_closes):
+    """close() on a wormhole whose application called dilate(): the peer dilates too, only has Dilation enabled, or is an
+    old client without it (`peer`); dilate() is called before or after the peer's versions arrive (`when`); then the sides in
+    `who_closes` close.  Closing completes once, with the right verdict, and frees the server's resources - whatever the
+    Dilation layer is doing."""
+    from ..mbworld import pinned_urandom
+    run = RealRun(tid, "dilate-close-family", modes={"A": "deferred", "B": "deferred"},
+                  dilation={"A": True, "B": peer != "old"})
+    w = run.world
+
+    def dilate(c, salt):
+        with pinned_urandom(salt):
+            try:
+                w.clients[c].dilated = w.clients[c].w.dilate()
+            except Exception as e:
+                w.clients[c].api_errors.append(("dilate", e))
+    for c in ("A", "B"):
+        run.apply({"a": "ConnOpen", "c": c})
+    if when == "early":
+        dilate("A", b"\x33")
+    for c in ("A", "B"):
+        run.apply({"a": "AppSetCode", "c": c, "code": "4-alpha-beta"})
+    if peer == "dilates":
+        dilate("B", b"\x5a")
+    run.apply({"a": "AppSend", "c": "B", "data": b"m:B:0".hex()})
+    if when == "mid":
+        # A's key is there, B's versions are not
+        for _ in range(200):
+            acts = [a for a in w.enabled(faults=False) if a["a"] in ("Serve", "Deliver")]
+            cl = w.clients["A"]
+            if not acts or any(k == "key" for k, _ in cl.events):
+                break
+            run.apply(acts[0])
+        dilate("A", b"\x33")
+    run.drain()
+    if when == "late":
+        dilate("A", b"\x33")
+        run.drain()
+    for c in who_closes:
+        run.apply({"a": "AppClose", "c": c})
+    drained = run.drain()
+    return run, False, drained
+
+
 def c02_prepake_case(tid, n, relabel, newside, tamper_pake_too):
     """The server holds back B's PAKE frame on its way to A, delivers B's version and application frames first
     (where the Order machine queues them) with the `side` of the frames in `relabel` rewritten, then the PAKE."""
@@ -1728,7 +1772,23 @@ def run_pipeline(prop, tier, v, quick):
                         runs[tid] = run_
                         records.append(run_.finish(drained, goal=False))
             cov["c08_unread_at_close_cases"] = n
-        if prop in ("C14", "C18", "C03"):
+        if prop in ("C08", "C14", "C09"):
+            # family: close() on wormholes whose applications use Dilation (peer dilating, merely capable, or an old client)
+            n = 0
+            for peer in ("dilates", "capable", "old"):
+                for when in ("early", "mid", "late"):
+                    for who in (("A",), ("A", "B"), ("B", "A")):
+                        tid += 1
+                        n += 1
+                        try:
+                            run_, goal, drained = dilate_close_case(tid, peer, when, who)
+                        except Exception as e:
+                            cov.setdefault("family_errors", []).append("dilate-close %s %s %s: %r" % (peer, when, who, e))
+                            continue
+                        runs[tid] = run_
+                        records.append(run_.finish(drained, goal=False))
+            cov["dilate_close_cases"] = n
+        if prop in ("C14", "C18", "C03", "C02", "C09"):
             # family: application messages next to Dilation's own mailbox traffic (dilate-N phases), every arrival order
             import itertools
             n = 0
